@@ -41,6 +41,7 @@ struct RunSpec {
     int mode = 0;           // 0 = output object driven directly by TestRegistry::runAllTests, 1 = through CommandLineTestRunner (-ojunit/-oteamcity)
     int repeat = 1;
     bool verbose = false;
+    int repackage = 0;                          // JUnit, direct mode: setPackageName called 1 + repackage times
     const char* strict_name_filter = nullptr;   // optional: only tests with exactly this name are selected
     const char* keep(const std::string& s) { strings.push_back(s); return strings.back().c_str(); }
 };
@@ -67,7 +68,7 @@ static std::string gen_text(vf::Rng& r, int minlen, int maxlen, int pct_special,
     return s;
 }
 // adversarial fragments: things that look like escapes / entities / message ends
-static const char* const FRAGMENTS[] = { "&amp;", "&lt;", "&#10;", "|n", "|r", "||", "|'", "']", "' x='", "]]>", "<!--", "-->", "<![CDATA[", "&", "'", "\"", "|", "<a b=\"c\">", "\r\n", "\n\n", "%s", "%d%n", "\\n", "&quot;" };
+static const char* const FRAGMENTS[] = { "&amp;", "&lt;", "&#10;", "|n", "|r", "||", "|'", "']", "' x='", "]]>", "<!--", "-->", "<![CDATA[", "&", "'", "\"", "|", "<a b=\"c\">", "\r\n", "\n\n", "%s", "%d%n", "\\n", "&quot;", "|0x0010", "|0xBEEF", "|0x00e9 ", "&apos;", "&#13;", "&#x41;", "&amp;lt;" };
 static std::string gen_hostile(vf::Rng& r, int minlen, int maxlen, int pct_break) {
     // 6 %: a long value (100..450 characters) with specials at arbitrary offsets, so that escapes straddle any internal chunk boundary
     if (r.chance(6)) { minlen = 100; maxlen = 450; }
@@ -90,6 +91,7 @@ static void generate(vf::Rng& r, RunSpec& run, bool thorough) {
     run.mode = r.chance(35) ? 1 : 0;
     run.repeat = (run.mode == 1 && r.chance(20)) ? 2 : 1;
     run.verbose = run.mode == 1 && r.chance(30);
+    run.repackage = (run.mode == 0 && r.chance(35)) ? 1 + (int) r.below(2) : 0;
     run.package = run.keep(r.chance(60) ? gen_hostile(r, 1, 8, 2) : std::string());
     // in runner mode the package travels through argv ("-k", value): any value is taken literally
     for (int g = 0; g < ngroups; g++) {
@@ -222,7 +224,7 @@ static std::string truth_json(const RunSpec& run, const std::vector<TestSpec*>& 
         }
         groups.push_back(vf::J().k("name", g).raw("tests", vf::jarr(tests)).str());
     }
-    return vf::J().k("package", run.package).k("filter", run.strict_name_filter ? run.strict_name_filter : "").k("filtered", run.strict_name_filter != nullptr).k("mode", run.mode).k("repeat", run.repeat).k("verbose", run.verbose).raw("groups", vf::jarr(groups)).str();
+    return vf::J().k("package", run.package).k("filter", run.strict_name_filter ? run.strict_name_filter : "").k("filtered", run.strict_name_filter != nullptr).k("set_package_calls", 1 + run.repackage).k("mode", run.mode).k("repeat", run.repeat).k("verbose", run.verbose).raw("groups", vf::jarr(groups)).str();
 }
 
 static bool has_any(const char* s, const char* set) { return strpbrk(s, set) != nullptr; }
@@ -259,7 +261,11 @@ static void sec_runs(vf::Ctx& c) {
     int runner_rc = -1;
     if (run.mode == 0) {
 #ifdef VF_JUNIT
-        RecJUnit out; out.setPackageName(run.package);
+        RecJUnit out;
+        // the package may be set more than once (a default that is overridden, a cleared package): the last one counts
+        if (run.repackage == 1) out.setPackageName("decoy/pkg");
+        if (run.repackage == 2) { out.setPackageName("x"); out.setPackageName(""); }
+        out.setPackageName(run.package);
 #else
         RecTeamCity out;
 #endif
